@@ -813,11 +813,13 @@ func subC(rc *kernel.RunCtx, k *kernel.Kernel) {
 				w.peerReq[v] = true
 				k.Action("peer calls " + v)
 				var pid any = "p" + fmt.Sprint(nPeerReq)
-				switch t.Choose(3, "peer-id-shape") {
+				switch t.Choose(4, "peer-id-shape") {
 				case 1:
 					pid = fmt.Sprint(100 + nPeerReq) // a string made of digits
 				case 2:
 					pid = 1000 + nPeerReq // a number
+				case 3:
+					pid = nPeerReq - 1 // a peer that numbers its requests from 0 (vscode-jsonrpc does)
 				}
 				w.peerIDs[v] = pid
 				peerSend(map[string]any{"jsonrpc": "2.0", "id": pid, "method": "reverse", "params": map[string]any{"v": v}})
